@@ -397,6 +397,9 @@ PROPS = {
                 'flow lists, quoting, key order, spacing), each combined with 0-2 extra noise; every edit once per run, then random ones. Base and '
                 'edited text are hashed by the real ConfigManager.ReloadFromRaw, one of them in a CHILD PROCESS. Observed: ConfigHash equal?, and '
                 'the struct-only hashstructure hash equal? Both texts are parsed with yaml.v2 into the generic document given to the model. '
+                'One case in three also takes the hashes through a history (a manager that loaded the base text before, a stop reason meanwhile), '
+                'through a file at varying directories, and through the API of a real sidecar service (read - push - read, then a REJECTED content - empty, '
+                'not a configuration, not YAML - after which the service must still report the hash of the content it runs). '
                 'non-trivial = all; distinct by input',
         'theorems': 'C16_blind C16_sensitive C16_leaves C16_struct_blind_owners C16_code_shape C16_exact C16_every_setting_counts '
                     'C16_document_injective C16_external_labels C16_only_external_labels',
